@@ -300,6 +300,12 @@ func c07Mutate(doc map[string]interface{}, mut string) bool {
 		if !ok {
 			return false
 		}
+		if f[1] == "vocab" {
+			// the same with a RELATIVE vocabulary: the property expands to a relative IRI, which RDF does not have either
+			doc["@context"] = append(append([]interface{}{}, ctx...), map[string]interface{}{"@vocab": "relative-vocab/"})
+			doc["alumniOf"] = "Example University"
+			return true
+		}
 		doc["@context"] = append(append([]interface{}{}, ctx...), map[string]interface{}{"alumniOf": "_:alumniOf"})
 		if f[1] == "subject" {
 			c07Subject(doc)["alumniOf"] = "Example University"
@@ -878,7 +884,7 @@ func c07Gen(r *Rng, tier string) []string {
 			if r.N(3) != 0 {
 				mut = r.Pick([]string{"addundef", "addundef", "adddef"}) + ":" + r.Pick([]string{"subject", "subj2", "issuer", "top"})
 				if r.N(6) == 0 {
-					mut = "addbn:" + r.Pick([]string{"top", "subject"})
+					mut = "addbn:" + r.Pick([]string{"top", "subject", "vocab"})
 				}
 			}
 		}
